@@ -62,6 +62,13 @@ fn main() {
             let mut ge = g.fork();
             (e.run)(prop, &mut ge, &budget, &mut out);
         }
+        // agreement clause: the same collections through schema validation
+        schema_ops::ZST_TOP.store(true, std::sync::atomic::Ordering::Relaxed);
+        for (_, run) in catalogue::zst_schema_catalogue() {
+            let mut ge = g.fork();
+            run(&mut ge, &budget, &mut out);
+        }
+        schema_ops::ZST_TOP.store(false, std::sync::atomic::Ordering::Relaxed);
     } else {
         for e in &cat {
             let mut ge = g.fork();
